@@ -122,7 +122,7 @@ func (cj *CookieJar) Set(uri *fasthttp.URI, cookies ...*fasthttp.Cookie) {
 //
 // CookieJar stores copies of the provided cookies, so they may be safely released after use.
 func (cj *CookieJar) SetByHost(host []byte, cookies ...*fasthttp.Cookie) {
-	hostStr := utils.UnsafeString(host)
+	hostStr := string(host) // the key outlives the caller's buffer
 
 	cj.mu.Lock()
 	defer cj.mu.Unlock()
@@ -182,7 +182,7 @@ func (cj *CookieJar) dumpCookiesToReq(req *fasthttp.Request) {
 
 // parseCookiesFromResp parses the cookies from the response and stores them for the specified host and path.
 func (cj *CookieJar) parseCookiesFromResp(host, path []byte, resp *fasthttp.Response) {
-	hostStr := utils.UnsafeString(host)
+	hostStr := string(host) // the key outlives the caller's buffer
 
 	cj.mu.Lock()
 	defer cj.mu.Unlock()
